@@ -7,6 +7,7 @@ import (
 	"encoding/json"
 	"fmt"
 	"hash/fnv"
+	"os"
 	"sort"
 	"strings"
 	"testing"
@@ -589,7 +590,8 @@ func c20Norm(v interface{}, key string) (interface{}, bool) {
 	case nil:
 		return nil, false
 	case string:
-		if x == "" {
+		if x == "" && key != "cpuPolicy" && key != "netQOSPolicy" {
+			// plain string fields with omitempty: "" is "not set"; the two *string policy fields keep ""
 			return nil, false
 		}
 		if key == "totalNetworkBandwidth" {
@@ -712,8 +714,13 @@ func c20LayerEq(a, b c20Layer) bool {
 	return true
 }
 
-// first differing field (sorted by path) between observed and expected
-func c20Diff(obs, exp c20Layer) (path []int, what string, found bool) {
+// differing fields (sorted by path) between observed and expected
+type c20Dif struct {
+	p    []int
+	what string
+}
+
+func c20Diffs(obs, exp c20Layer) []c20Dif {
 	keys := map[string]bool{}
 	for k := range obs {
 		keys[k] = true
@@ -726,14 +733,15 @@ func c20Diff(obs, exp c20Layer) (path []int, what string, found bool) {
 		ps = append(ps, c20ParsePath(k))
 	}
 	sort.Slice(ps, func(i, j int) bool { return c20PathLess(ps[i], ps[j]) })
+	var out []c20Dif
 	for _, p := range ps {
 		o, ook := obs[c20PathStr(p)]
 		e, eok := exp[c20PathStr(p)]
 		if ook != eok || o != e {
-			return p, fmt.Sprintf("delivered %v(%d) expected %v(%d)", ook, o, eok, e), true
+			out = append(out, c20Dif{p, fmt.Sprintf("delivered %v(%d) expected %v(%d)", ook, o, eok, e)})
 		}
 	}
-	return nil, "", false
+	return out
 }
 
 func c20PathNames(p []int) string {
@@ -982,8 +990,14 @@ func TestVerifC20(t *testing.T) {
 						continue
 					}
 					secBroken[s] = true
-					p, what, _ := c20Diff(obs, exp)
-					where := fmt.Sprintf("section %s field %s: %s (event %d, labels %v)", c20SecNames[s], c20PathNames(p), what, ev, node.Labels)
+					difs := c20Diffs(obs, exp)
+					if os.Getenv("C20_DEBUG") != "" {
+						fmt.Printf("DEBUG case %d sec %d text=%s\nraw cluster=%s\nexp=%v\nobs=%v\n", idx, s, g.sec.text, c20Marshal(g.sec.cluster), exp, obs)
+					}
+					whereOf := func(d c20Dif) string {
+						return fmt.Sprintf("section %s field %s: %s (event %d, labels %v)", c20SecNames[s], c20PathNames(d.p), d.what, ev, node.Labels)
+					}
+					where := whereOf(difs[0])
 					switch {
 					case malformedNow[s]:
 						fail("C20:malformed-not-kept:"+c20SecNames[s], "unparsable section did not keep the previous settings; %s", where)
@@ -1001,17 +1015,17 @@ func TestVerifC20(t *testing.T) {
 								break
 							}
 						}
-						if cls == "" {
-							top := "?"
-							if len(p) > 0 {
-								top = c20KeyName(p[0])
-								if s == 4 {
-									top = "applications"
-								}
-							}
-							cls = "C20:layering:" + c20SecNames[s] + ":" + top
+						if cls != "" {
+							fail(cls, "%s", where)
+							break
 						}
-						fail(cls, "%s", where)
+						for _, d := range difs { // one fingerprint per top-level field that is wrong
+							top := "applications"
+							if s != 4 && len(d.p) > 0 {
+								top = c20KeyName(d.p[0])
+							}
+							fail("C20:layering:"+c20SecNames[s]+":"+top, "%s", whereOf(d))
+						}
 					}
 				}
 				if allLayers {
